@@ -589,8 +589,10 @@ func (g *group) minimise(hist []Query, idx int) []Query {
 			continue
 		}
 		two := []Query{hist[j], hist[idx]}
-		if k, _ := g.checkHistory(two, ask(g.cfg, two)); k == 1 {
-			return two
+		for try := 0; try < 3; try++ { // the culprit may itself depend on map order: a few attempts
+			if k, _ := g.checkHistory(two, ask(g.cfg, two)); k == 1 {
+				return two
+			}
 		}
 	}
 	return hist[:idx+1]
